@@ -1584,6 +1584,22 @@ def _setattr_wrapper(setattr_: Callable, expected_keys: set[str]) -> Callable:
     return wrapper
 
 
+def _drop_stale_placeholders(self, td):
+    # A tensordict method may have written an entry under the name of a field that is
+    # held as a ``None`` placeholder: the entry is now the value of the field, and the
+    # placeholder must go (as ``_set`` does), or ``to_dict`` / ``to_tensordict`` / repr
+    # keep reporting ``None`` for it.
+    if not is_compiling():
+        non_tensordict = super(type(self), self).__getattribute__("_non_tensordict")
+    else:
+        non_tensordict = self._non_tensordict
+    if non_tensordict:
+        keys = td.keys()
+        stale = [k for k, v in non_tensordict.items() if v is None and k in keys]
+        for k in stale:
+            del non_tensordict[k]
+
+
 def _wrap_td_method(
     funcname, *, copy_non_tensor=False, no_wrap=False, is_property=False
 ):
@@ -1612,6 +1628,7 @@ def _wrap_td_method(
             else:
                 td = self._tensordict
             result = getattr(td, funcname)(*args, **kwargs)
+            _drop_stale_placeholders(self, td)
             if no_wrap:
                 return result
 
@@ -1714,6 +1731,7 @@ def _update(
             ignore_lock=ignore_lock,
         )
         self._non_tensordict.update(non_tensordict)
+        _drop_stale_placeholders(self, self._tensordict)
         return self
 
     self._tensordict.update(
